@@ -59,9 +59,9 @@ func writeEvidence(a OrchArgs, info *props.Info, agg *Agg, violations int, wall 
 			"logical_events": agg.Events,
 			"note":           "the system under simulation reads no clock and has no timers, so there is no simulated clock; coverage in time is reported as logical events (reader calls + API calls + scheduler yields)",
 		},
-		"faults_fired":         faults,
-		"reach_probes":         probes,
-		"counters":             other,
+		"faults_fired":            faults,
+		"reach_probes":            probes,
+		"counters":                other,
 		"distinct_states_measure": "distinct (world hash, delivery/schedule signature, fault signature) tuples among non-trivial runs",
 		"components": map[string]interface{}{
 			"real":      info.Real,
